@@ -1097,6 +1097,19 @@ impl<'a> RepositoryUpdate<'a> {
             }
         }
 
+        // The deltas to apply must form an unbroken chain: each serial must
+        // be exactly one above its predecessor. Otherwise a delta is missing
+        // (or listed twice) and applying the rest would silently skip its
+        // changes.
+        if deltas.windows(2).any(|pair| {
+            pair[0].serial().checked_add(1) != Some(pair[1].serial())
+        }) {
+            self.log.debug(format_args!(
+                "Gap in the delta serial numbers."
+            ));
+            return Err(SnapshotReason::BadDeltaSet)
+        }
+
         if deltas.len() > self.collector.config.max_delta_count {
             self.log.debug(format_args!(
                 "Too many delta steps required ({})", deltas.len()
